@@ -60,8 +60,8 @@ var propertyCanaries = map[string][]string{
 	"C02": {"WORK.init", "FLAG.cholorder", "ARGS.callee", "FLAG.unset", "FLAG.unitdiag", "WORKSIZE.fallback", "OKFLOW.loopstatus", "FACTKIND.pair", "ARGS.order", "ARGS.lencheck", "ARGS.query", "LOOPIDX.unused", "OKFLOW.report", "STRIDE.vecinc", "WORKSIZE.min", "WORKSIZE.querylen"},
 	"C03": {"WORK.init", "FLAG.cholorder", "ARGS.callee", "FLAG.unset", "FLAG.unitdiag", "WORKSIZE.fallback", "GUARD.operand", "FLAG.uplomap", "STRIDE.veclda", "FACTKIND.pair", "LOOPIDX.origin", "ARGS.order", "ARGS.lencheck", "ARGS.query", "LOOPIDX.unused", "OKFLOW.report", "STRIDE.workld", "STRIDE.worknext", "WORKSIZE.min"},
 	"C04": {"MAT.selfguard", "ZEROED.paths", "SWAP.cond", "STRIDE.contig", "TWIN.bounds", "NILRECV"},
-	"C05": {"OVERLAP.extent", "OVERLAP.guard", "MODSET.mat", "OVERLAP.symmetric", "TWIN.shadow"},
-	"C06": {"FACT.failstate", "INIT.state", "ERR.overwrite", "ERR.swallow", "FACT.deadloop", "FACT.reuse", "FLAG.unset", "OKFLOW.condpath", "FACT.condafter", "FACTKIND.pair", "OKFLOW.use", "OKFLOW.cond", "OKFLOW.report", "FACT.normorder", "FACT.state", "FACT.condunit", "NILRECV"},
+	"C05": {"MAT.guardorder", "FACT.alias", "OVERLAP.extent", "OVERLAP.guard", "MODSET.mat", "OVERLAP.symmetric", "TWIN.shadow"},
+	"C06": {"FACT.alias", "FACT.failstate", "INIT.state", "ERR.overwrite", "ERR.swallow", "FACT.deadloop", "FACT.reuse", "FLAG.unset", "OKFLOW.condpath", "FACT.condafter", "FACTKIND.pair", "OKFLOW.use", "OKFLOW.cond", "OKFLOW.report", "FACT.normorder", "FACT.state", "FACT.condunit", "NILRECV"},
 	"C07": {"ARGS.callee", "ARGS.ldcols", "ARGS.condlen", "ARGS.arms", "ARGS.strict", "ARGS.fullrow", "WORKSIZE.querylen", "ARGS.order", "ARGS.lencheck", "ARGS.query", "MAT.order", "ASM.window", "ASM.tail", "STRIDE.len"},
 	"C08": {"STRIDE.fullrange", "BETA.scaleguard", "CONSTFOLD.underflow", "ASM.lost", "PARAMUSE.read", "ASM.window", "ASM.tail", "ASM.units", "STRIDE.extent", "SIB.guards"},
 	"C09": {"GOPROTO.latch", "GOPROTO.lockexit", "RAW.stride", "GOPROTO.accumzero", "GOPROTO.semcap", "GOPROTO.scratch", "GLOBAL.write", "GOPROTO.capture", "GOPROTO.lockpair", "GOPROTO.sibling", "POOL.uaf"},
@@ -69,7 +69,7 @@ var propertyCanaries = map[string][]string{
 	"C16": {"ERR.overwrite", "ERR.swallow", "RESET.revive", "DECODE.order", "DECODE.errdrop", "DECODE.mul", "DECODE.selfcmp", "DECODE.clone", "DECODE.fields"},
 	"C17": {"CMPLX.parts", "RESET.noleak", "GLOBAL.write", "RESET.fields", "WINDOW.pointwise"},
 	"C18": {"ERR.overwrite", "ERR.swallow", "SETTINGS.readonly", "RAW.stride", "SWAP.cond", "GOPROTO.accumzero", "CONST.stencil", "GOPROTO.sibling"},
-	"C19": {"GOPROTO.latch", "ERR.overwrite", "ERR.swallow", "SETTINGS.readonly", "OPT.maskpair", "ALIAS.config", "OPT.limits", "GOPROTO.scratch", "GOPROTO.run", "INIT.state"},
+	"C19": {"INIT.complete", "GOPROTO.latch", "ERR.overwrite", "ERR.swallow", "SETTINGS.readonly", "OPT.maskpair", "ALIAS.config", "OPT.limits", "GOPROTO.scratch", "GOPROTO.run", "INIT.state"},
 }
 
 func init() {
@@ -126,6 +126,9 @@ func init() {
 		{"GOPROTO.latch", "optimize/minimize.go", "\t\tif status != NotTerminated || err != nil {\n\t\t\tselect {\n\t\t\tcase <-done:\n\t\t\tdefault:\n\t\t\t\tfinalStatus = status\n\t\t\t\tfinalError = err\n", "\t\tif status != NotTerminated || err != nil {\n\t\t\tfinalStatus = status\n\t\t\tselect {\n\t\t\tcase <-done:\n\t\t\tdefault:\n\t\t\t\tfinalStatus = status\n\t\t\t\tfinalError = err\n", func() *core.Result { return goproto.RunLatch(def, core.Pkgs("./optimize")) }},
 		{"INIT.state", "mat/cholesky.go", "\t\tc.chol = NewTriDense(n, Upper, nil)\n\t} else {\n\t\tc.chol.Reset()\n\t\tc.chol.reuseAsNonZeroed(n, Upper)\n\t}\n\tc.piv = useInt(c.piv, n)\n\tc.pivTrans = useInt(c.pivTrans, n)\n\tc.rank = 0\n\tc.ok = false\n\tc.cond = math.Inf(1)\n", "\t\tc.chol = NewTriDense(n, Upper, nil)\n\t\tc.cond = math.Inf(1)\n\t} else {\n\t\tc.chol.Reset()\n\t\tc.chol.reuseAsNonZeroed(n, Upper)\n\t}\n\tc.piv = useInt(c.piv, n)\n\tc.pivTrans = useInt(c.pivTrans, n)\n\tc.rank = 0\n\tc.ok = false\n", func() *core.Result { return initx.Run(def, "./mat") }},
 		{"FACT.failstate", "mat/cholesky.go", "\t\tputFloat64s(work)\n\t\tch.Reset()\n\t\treturn false", "\t\tputFloat64s(work)\n\t\treturn false", func() *core.Result { return factx.Run(def) }},
+		{"INIT.complete", "optimize/linesearch.go", "\tls.first = true\n\tls.nextMajor = false\n", "\tls.first = true\n", func() *core.Result { return initx.RunComplete(def, "./optimize") }},
+		{"FACT.alias", "mat/lu.go", "\t\t\tlu.swaps = useInt(lu.swaps, n)\n", "\t\t\tlu.swaps = orig.swaps[:n]\n", func() *core.Result { return factx.Run(def) }},
+		{"MAT.guardorder", "mat/symmetric.go", "\t\ts.CopySym(a)\n\t}\n\n\tif xIsVec {\n\t\tblas64.Syr(alpha, rv.mat, s.mat)", "\t\ts.CopySym(a)\n\t}\n\tif xIsVec {\n\t\tr, c := xU.Dims()\n\t\ts.checkOverlap(generalFromVector(rv.mat, r, c))\n\t}\n\n\tif xIsVec {\n\t\tblas64.Syr(alpha, rv.mat, s.mat)", func() *core.Result { return matargs.Run(def) }},
 		{"BETA.noread", "blas/gonum/level3float64.go", "\tif beta == 0 {\n\t\tfor i := 0; i < m; i++ {\n\t\t\tctmp := c[i*ldc : i*ldc+n]\n\t\t\tfor j := range ctmp {\n\t\t\t\tctmp[j] = 0", "\tif beta == 0 {\n\t\tfor i := 0; i < m; i++ {\n\t\t\tctmp := c[i*ldc : i*ldc+n]\n\t\t\tfor j := range ctmp {\n\t\t\t\tctmp[j] *= beta", func() *core.Result { return flagx.RunBetaZero(def, core.Pkgs("./blas/gonum")) }},
 		{"GUARD.operand", "lapack/gonum/dbdsqr.go", "if ncc > 0 {\n\t\t\t\timpl.Dlasr(blas.Left, lapack.Variable, lapack.Forward, n, ncc, work, work[n-1:], c, ldc)", "if nru > 0 {\n\t\t\t\timpl.Dlasr(blas.Left, lapack.Variable, lapack.Forward, n, ncc, work, work[n-1:], c, ldc)", func() *core.Result { return flagx.RunGuardOperand(def, core.Pkgs("./lapack/gonum")) }},
 		{"GOPROTO.scratch", "optimize/minimize.go", "\tworker := func() {\n\t\tx := make([]float64, dim)\n", "\tx := make([]float64, dim)\n\tworker := func() {\n", func() *core.Result { return goproto.Run(def, core.Pkgs("./optimize")) }},
